@@ -1,4 +1,165 @@
 package main
 
-// selfTest is filled in by the seeded-mutant harness (thorough tier).
-func selfTest(verif, repo, prop string) any { return nil }
+import (
+	"encoding/json"
+	"fmt"
+	"os"
+	"os/exec"
+	"path/filepath"
+	"sort"
+	"strings"
+	"sync"
+)
+
+// Seeded-mutant self-test (thorough tier). Every patch registered for the
+// property in <verif>/mutants/index.json is applied to a scratch copy of the
+// repository's CURRENT working tree (under $TMPDIR, removed immediately), the
+// checker is re-run on the copy (one process per mutant: many variants in
+// one process exhaust memory) and must report the seeded rule. The result is
+// evidence about the CHECKER; it never changes the verdict about /repo.
+
+type mutantEntry struct {
+	ID       string `json:"id"`
+	Property string `json:"property"`
+	Rule     string `json:"rule"`
+	File     string `json:"file"`
+	Survives *bool  `json:"survives_repo_tests"`
+}
+
+type mutantIndex struct {
+	Mutants  []mutantEntry `json:"mutants"`
+	Negative []string      `json:"negative_controls"`
+}
+
+type mutantResult struct {
+	ID            string   `json:"id"`
+	Rule          string   `json:"rule_expected"`
+	Status        string   `json:"status"` // detected | missed | stale | error
+	Fired         []string `json:"rules_fired,omitempty"`
+	SurvivesTests *bool    `json:"survives_repo_tests,omitempty"`
+}
+
+func selfTest(verif, repo, prop string) any {
+	b, err := os.ReadFile(filepath.Join(verif, "mutants", "index.json"))
+	if err != nil {
+		return map[string]any{"error": err.Error()}
+	}
+	var idx mutantIndex
+	if err := json.Unmarshal(b, &idx); err != nil {
+		return map[string]any{"error": err.Error()}
+	}
+	self, err := os.Executable()
+	if err != nil {
+		return map[string]any{"error": err.Error()}
+	}
+	type job struct {
+		e   mutantEntry
+		neg bool
+	}
+	var jobs []job
+	for _, e := range idx.Mutants {
+		if e.Property == prop {
+			jobs = append(jobs, job{e: e})
+		}
+	}
+	// negative controls are cheap insurance against false alarms: run them with C01
+	// (once per full thorough sweep) and with whichever property they would trip
+	if prop == "C01" {
+		for _, id := range idx.Negative {
+			jobs = append(jobs, job{e: mutantEntry{ID: id, Property: "all", Rule: "-"}, neg: true})
+		}
+	}
+	base := filepath.Join(os.TempDir(), fmt.Sprintf("mocverif-selftest-%d", os.Getpid()))
+	defer os.RemoveAll(base)
+	results := make([]mutantResult, len(jobs))
+	sem := make(chan struct{}, 6)
+	var wg sync.WaitGroup
+	for i, j := range jobs {
+		wg.Add(1)
+		go func(i int, j job) {
+			defer wg.Done()
+			sem <- struct{}{}
+			defer func() { <-sem }()
+			results[i] = runMutant(self, verif, repo, base, j.e, j.neg)
+		}(i, j)
+	}
+	wg.Wait()
+	sort.Slice(results, func(a, b int) bool { return results[a].ID < results[b].ID })
+	det, missed, stale, falseAlarms := 0, 0, 0, 0
+	for _, r := range results {
+		switch r.Status {
+		case "detected", "silent":
+			det++
+		case "missed":
+			missed++
+			fmt.Printf("WARN selftest: seeded mutant %s not detected by %s (fired: %v)\n", r.ID, r.Rule, r.Fired)
+		case "false-alarm":
+			falseAlarms++
+			fmt.Printf("WARN selftest: negative control %s raised %v\n", r.ID, r.Fired)
+		default:
+			stale++
+			fmt.Printf("WARN selftest: seeded mutant %s is %s\n", r.ID, r.Status)
+		}
+	}
+	return map[string]any{
+		"seeded":        len(jobs),
+		"detected":      det,
+		"missed":        missed,
+		"stale":         stale,
+		"false_alarms":  falseAlarms,
+		"results":       results,
+		"note":          "each patch is applied to a scratch copy of the repository's current working tree and the rules are re-run on the copy; 'detected' = the named rule reported the seeded construct; negative controls (behaviour-preserving rewrites) must stay silent",
+	}
+}
+
+func runMutant(self, verif, repo, base string, e mutantEntry, neg bool) mutantResult {
+	res := mutantResult{ID: e.ID, Rule: e.Rule, SurvivesTests: e.Survives}
+	dir := filepath.Join(base, e.ID)
+	ev := filepath.Join(base, "ev-"+e.ID)
+	defer os.RemoveAll(dir)
+	defer os.RemoveAll(ev)
+	if err := os.MkdirAll(dir, 0o755); err != nil {
+		res.Status = "error: " + err.Error()
+		return res
+	}
+	if out, err := exec.Command("rsync", "-a", "--exclude", ".git", repo+"/", dir+"/").CombinedOutput(); err != nil {
+		res.Status = "error: copy: " + strings.TrimSpace(string(out))
+		return res
+	}
+	patch := filepath.Join(verif, "mutants", "patches", e.ID+".patch")
+	if out, err := exec.Command("patch", "-p1", "-s", "-d", dir, "-i", patch).CombinedOutput(); err != nil {
+		res.Status = "stale (patch does not apply: " + strings.TrimSpace(string(out)) + ")"
+		return res
+	}
+	prop := e.Property
+	cmd := exec.Command(self, "-repo", dir, "-property", prop, "-tier", "quick", "-evidence", ev, "-verif", verif)
+	out, _ := cmd.CombinedOutput()
+	fired := map[string]bool{}
+	violated := false
+	for _, line := range strings.Split(string(out), "\n") {
+		line = strings.TrimSpace(line)
+		if strings.HasPrefix(line, "VIOLATED") || strings.HasPrefix(line, "UNDECIDED") {
+			if i, j := strings.Index(line, "["), strings.Index(line, "]"); i >= 0 && j > i {
+				fired[line[i+1:j]] = true
+			}
+		}
+		if strings.HasPrefix(line, "VIOLATION") {
+			violated = true
+		}
+	}
+	for r := range fired {
+		res.Fired = append(res.Fired, r)
+	}
+	sort.Strings(res.Fired)
+	switch {
+	case neg && !violated:
+		res.Status = "silent"
+	case neg:
+		res.Status = "false-alarm"
+	case fired[e.Rule]:
+		res.Status = "detected"
+	default:
+		res.Status = "missed"
+	}
+	return res
+}
